@@ -832,11 +832,90 @@ Proof.
     split; assumption.
 Qed.
 
+Lemma d_get_notin {V} (d : list (string * V)) k : ~ In k (map fst d) -> d_get d k = None.
+Proof.
+  induction d as [|[k' v] r IH]; cbn; [reflexivity|]. intros H.
+  destruct (String.eqb k k') eqn:E; [apply String.eqb_eq in E; subst; tauto|]. apply IH. tauto.
+Qed.
+
+(* ------------------------------------------------------------------ swap_dest: _quick_set into an empty tensordict *)
+Definition qs_go := fix go (l : list (string * pent)) (dest : ptd) : qres :=
+  match l with
+  | [] => QOk dest
+  | (key, PSub s') :: r =>
+      match p_get dest key with
+      | None => QErr EKeyError
+      | Some (PLeaf _) => QErr EOther
+      | Some (PSub d') =>
+          match quick_set s' d' with
+          | QErr e => QErr e
+          | QOk d'' => go r (p_set dest key (PSub d''))
+          end
+      end
+  | (key, PLeaf o) :: r =>
+      if pent_is (p_get dest key) o then go r dest else go r (p_set dest key (PLeaf o))
+  end.
+Lemma quick_set_PTD l dest : quick_set (PTD l) dest = qs_go l dest.
+Proof. reflexivity. Qed.
+
+Lemma d_set_fresh {V} (d : list (string * V)) k v : ~ In k (map fst d) -> d_set d k v = d ++ [(k, v)].
+Proof.
+  induction d as [|[k' v'] r IH]; cbn; [reflexivity|]. intros H.
+  destruct (String.eqb k k') eqn:E; [apply String.eqb_eq in E; subst; tauto|]. rewrite IH by tauto. reflexivity.
+Qed.
+
+Lemma qs_go_fresh : forall l acc sw,
+  qs_go l (PTD acc) = QOk sw -> NoDup (map fst l) -> (forall k, In k (map fst l) -> ~ In k (map fst acc)) ->
+  sw = PTD (acc ++ l) /\ Forall (fun e => is_leaf_ent e = true) l.
+Proof.
+  induction l as [|[k [o|t']] r IH]; intros acc sw H Hnd Hdis.
+  - cbn in H. inversion H. rewrite app_nil_r. split; [reflexivity|constructor].
+  - cbn [qs_go] in H. unfold p_get in H. cbn [p_ents] in H.
+    rewrite (d_get_notin acc k) in H by (apply Hdis; cbn; auto). cbn [pent_is] in H.
+    unfold p_set in H. cbn [p_ents] in H. rewrite d_set_fresh in H by (apply Hdis; cbn; auto).
+    inversion Hnd as [|? ? Hk Hnd']; subst.
+    destruct (IH _ _ H Hnd') as (E & F).
+    { intros k' Hk' Hin. rewrite map_app, in_app_iff in Hin. cbn in Hin. destruct Hin as [Hin|[<-|[]]]; [|tauto].
+      apply (Hdis k'); [cbn; auto|exact Hin]. }
+    split; [rewrite E, <- app_assoc; reflexivity|constructor; [reflexivity|exact F]].
+  - cbn [qs_go] in H. unfold p_get in H. cbn [p_ents] in H.
+    rewrite (d_get_notin acc k) in H by (apply Hdis; cbn; auto). discriminate.
+Qed.
+
+(* filling an empty swap_dest: succeeds only for a flat swap, and the destination then holds exactly the swap *)
+Lemma quick_set_empty l sw :
+  quick_set (PTD l) (PTD []) = QOk sw -> NoDup (map fst l) -> sw = PTD l /\ Forall (fun e => is_leaf_ent e = true) l.
+Proof.
+  rewrite quick_set_PTD. intros H Hnd. destruct (qs_go_fresh l [] sw H Hnd) as (E & F); [intros k _ []|]. split; [exact E|exact F].
+Qed.
+
+Lemma quick_set_empty_nested k t r l : l = (k, PSub t) :: r -> quick_set (PTD l) (PTD []) = QErr EKeyError.
+Proof. intros ->. reflexivity. Qed.
+
+Lemma S_forall ents : Forall (fun e : string * pent => match snd e with PSub t => S_stmt t | PLeaf _ => True end) ents.
+Proof. apply Forall_forall. intros [k [o|t]] _; cbn; [exact I|apply S_all]. Qed.
+
+(* the swap returned by a plain pass has the keys of the tensordict, in the same order *)
+Lemma to_mod_keys cfg ents m st memo st1 memo1 sw :
+  simple cfg -> to_mod cfg (PTD ents) m st memo = TmOk st1 memo1 sw -> keys_nodup (PTD ents) ->
+  exists swl, sw = PTD swl /\ map fst swl = map fst ents.
+Proof.
+  intros Hs Htm Hkn. rewrite to_mod_simple in Htm by exact Hs.
+  destruct (h_get (t_heap st) m) as [n0|] eqn:En; [|discriminate].
+  destruct (tm_go (to_mod cfg) cfg m (m_custom n0) (m_subs n0) true ents st (z_set memo m (PTD [])) [])
+    as [[[st2 memo2] acc2] [e|]] eqn:Eg; [discriminate|].
+  inversion Htm; subst. rewrite keys_nodup_PTD in Hkn. destruct Hkn as (Hnd & Hkn).
+  assert (Hm0 : z_get (z_set memo m (PTD [])) m <> None) by (rewrite z_get_set_same; discriminate).
+  destruct (GL ents (S_forall ents) cfg Hs m n0 st (z_set memo m (PTD [])) [] st1 _ acc2 Eg En Hm0 Hnd Hkn)
+    as (swl & Hacc & Hkeys & _).
+  exists swl. split; [now rewrite Hacc|exact Hkeys].
+Qed.
+
 (* ------------------------------------------------------------------ one block, then programs *)
 Definition all_sloteq (st' st : tstate) : Prop := forall c, osloteq (hg st' c) (hg st c).
 
 Definition block_ok (h : heap) (b : block) : Prop :=
-  b_usd b = false /\ (b_inplace b = None \/ b_inplace b = Some false) /\ b_swap_dest b = false /\ b_manual b = false
+  b_usd b = false /\ (b_inplace b = None \/ b_inplace b = Some false) /\ b_manual b = false
   /\ keys_nodup (b_params b) /\ scope h (b_params b).
 
 Lemma block_ok_simple h b : block_ok h b -> simple (cfg_of b true).
@@ -844,7 +923,7 @@ Proof. intros (H1 & H2 & _). unfold simple, cfg_of. cbn. auto. Qed.
 
 Lemma block_ok_mono h h1 b : block_ok h b -> mono_heap h h1 -> block_ok h1 b.
 Proof.
-  intros (H1 & H2 & H3 & H4 & H5 & H6) Hm. repeat split; auto. unfold scope in *. eapply scopeL_mono; eauto.
+  intros (H1 & H2 & H4 & H5 & H6) Hm. repeat split; auto. unfold scope in *. eapply scopeL_mono; eauto.
 Qed.
 
 Lemma all_sloteq_refl st : all_sloteq st st.
@@ -862,10 +941,27 @@ Lemma enter_facts b st st1 memo1 swap :
   pass1_facts (b_target b) st [] st1 memo1
   /\ (wf_heap (t_heap st) -> pass2_facts (cfg_of b true) (b_target b) st [] st1 memo1 swap).
 Proof.
-  intros Hb Ht. pose proof Hb as (H1 & H2 & H3 & H4 & H5 & H6).
+  intros Hb Ht. pose proof Hb as (H1 & H2 & H4 & H5 & H6).
   destruct (S_all (b_params b) (cfg_of b true) (block_ok_simple _ _ Hb) (b_target b) (clear_saved st) [] st1 memo1 swap Ht eq_refl H5)
     as (P1 & P2).
   split; [exact P1|]. intros Hwf. exact (P2 Hwf H6).
+Qed.
+
+(* a user-supplied (empty) swap_dest is filled by _quick_set when to_module returns: either it raises (a nested entry:
+   KeyError, the block is not entered) or it holds exactly the swap, under the same keys *)
+Lemma sd_enter b st st1 memo1 swap0 :
+  block_ok (t_heap st) b ->
+  to_module (cfg_of b true) (b_params b) (b_target b) st = TmOk st1 memo1 swap0 ->
+  (if b_swap_dest b then quick_set swap0 (PTD []) else QOk swap0) = QOk swap0
+  \/ exists e, (if b_swap_dest b then quick_set swap0 (PTD []) else QOk swap0) = QErr e.
+Proof.
+  intros Hb Ht. destruct (b_swap_dest b); [|left; reflexivity].
+  destruct (quick_set swap0 (PTD [])) as [d|e] eqn:Eq; [left|right; eauto].
+  pose proof Hb as (H1 & H2 & H4 & H5 & H6). unfold to_module in Ht.
+  destruct (b_params b) as [ents] eqn:Ep.
+  destruct (to_mod_keys _ _ _ _ _ _ _ _ (block_ok_simple _ _ Hb) Ht H5) as (swl & -> & Hk).
+  rewrite keys_nodup_PTD in H5. destruct H5 as (Hnd & _). rewrite <- Hk in Hnd.
+  destruct (quick_set_empty swl d Eq Hnd) as (-> & _). reflexivity.
 Qed.
 
 Lemma block_restore b st st1 memo1 swap st2 :
@@ -880,7 +976,7 @@ Proof.
   { intros c. tauto. }
   { intros c _. apply H21. }
   { eapply struct_same_trans; [exact B6|]. exact (all_sloteq_struct st1 st2 H21). }
-  unfold reverse_to_module. destruct Hb as (_ & _ & Hsd & _). rewrite Hsd.
+  unfold reverse_to_module, fixed_D133. rewrite andb_false_r.
   unfold to_module. rewrite Q1.
   assert (Hall : all_sloteq stY st).
   { intros c. destruct (touched_dec [] memo1 c) as [Ht'|Hnt].
@@ -909,7 +1005,9 @@ Proof.
     pose proof (Forall_inv Hok) as Hb. pose proof (Forall_inv_tail Hok) as Hrest.
     destruct (to_module (cfg_of b true) (b_params b) (b_target b) st) as [st1 memo1 swap0|st1 e] eqn:Et.
     2:{ inversion Hrun; subst. inversion Hen as [|? ? He _]; subst. cbn in He. specialize (He eq_refl). discriminate. }
-    pose proof Hb as (_ & _ & Hsd & Hman & _). rewrite Hsd, Hman in Hrun.
+    destruct (sd_enter b st st1 memo1 swap0 Hb Et) as [Hq|(eq & Hq)]; rewrite Hq in Hrun.
+    2:{ inversion Hrun; subst. inversion Hen as [|? ? He _]; subst. cbn in He. specialize (He eq_refl). discriminate. }
+    pose proof Hb as (_ & _ & Hman & _). rewrite Hman in Hrun.
     destruct (run_blocks_gen true x rest (S lvl) st1) as [[st2 evs_i] oc_i] eqn:Er.
     destruct (enter_facts b st st1 memo1 swap0 Hb Et) as (P1 & _).
     destruct P1 as (B1 & B2 & B3 & B4 & B5 & B6 & B7 & B8).
@@ -942,7 +1040,9 @@ Proof.
     pose proof (Forall_inv Hok) as Hb. pose proof (Forall_inv_tail Hok) as Hrest.
     destruct (to_module (cfg_of b true) (b_params b) (b_target b) st) as [st1 memo1 swap0|st1 e] eqn:Et.
     2:{ inversion Hrun; subst. inversion Hev as [|? ? He _]; subst. cbn in He. discriminate. }
-    pose proof Hb as (_ & _ & Hsd & Hman & _). rewrite Hsd, Hman in Hrun.
+    destruct (sd_enter b st st1 memo1 swap0 Hb Et) as [Hq|(eq & Hq)]; rewrite Hq in Hrun.
+    2:{ inversion Hrun; subst. inversion Hev as [|? ? He _]; subst. cbn in He. discriminate. }
+    pose proof Hb as (_ & _ & Hman & _). rewrite Hman in Hrun.
     destruct (run_blocks_gen fixed x rest (S lvl) st1) as [[st2 evs_i] oc_i] eqn:Er.
     destruct (enter_facts b st st1 memo1 swap0 Hb Et) as (P1 & _).
     destruct P1 as (B1 & B2 & B3 & B4 & B5 & B6 & B7 & B8).
@@ -969,7 +1069,9 @@ Proof.
   intros b st st' evs oc Hrun Hb Hwf Hen. cbn [run_blocks_gen] in Hrun.
   destruct (to_module (cfg_of b true) (b_params b) (b_target b) st) as [st1 memo1 swap0|st1 e] eqn:Et.
   2:{ inversion Hrun; subst. inversion Hen as [|? ? He _]; subst. cbn in He. specialize (He eq_refl). discriminate. }
-  pose proof Hb as (_ & _ & Hsd & Hman & _). rewrite Hsd, Hman in Hrun.
+  destruct (sd_enter b st st1 memo1 swap0 Hb Et) as [Hq|(eq & Hq)]; rewrite Hq in Hrun.
+  2:{ inversion Hrun; subst. inversion Hen as [|? ? He _]; subst. cbn in He. specialize (He eq_refl). discriminate. }
+  pose proof Hb as (_ & _ & Hman & _). rewrite Hman in Hrun.
   destruct (enter_facts b st st1 memo1 swap0 Hb Et) as (P1 & _).
   destruct P1 as (B1 & B2 & B3 & B4 & B5 & B6 & B7 & B8).
   destruct (block_restore b st st1 memo1 swap0 st1 Hb Hwf Et (all_sloteq_refl st1)) as (st3' & r & Hr & Hall & Hv).
@@ -983,12 +1085,6 @@ Proof.
   - destruct a; congruence.
   - destruct p as [[o|]|]; destruct b as [[o2|]|]; destruct a as [o3|]; try congruence; auto;
       intros H; try (now apply negb_true_iff in H).
-Qed.
-
-Lemma d_get_notin {V} (d : list (string * V)) k : ~ In k (map fst d) -> d_get d k = None.
-Proof.
-  induction d as [|[k' v] r IH]; cbn; [reflexivity|]. intros H.
-  destruct (String.eqb k k') eqn:E; [apply String.eqb_eq in E; subst; tauto|]. apply IH. tauto.
 Qed.
 
 Lemma z_get_In {V} (d : list (Z * V)) k v : z_get d k = Some v -> In (k, v) d.
@@ -1054,11 +1150,10 @@ Qed.
 
 Lemma block_okb_ok h b : block_okb h b = true -> block_ok h b.
 Proof.
-  unfold block_okb, block_ok. rewrite !andb_true_iff. intros (((((H1 & H2) & H3) & H4) & H5) & H6).
+  unfold block_okb, block_ok. rewrite !andb_true_iff. intros ((((H1 & H2) & H4) & H5) & H6).
   repeat split.
   - now apply negb_true_iff in H1.
   - destruct (b_inplace b) as [[|]|]; auto; discriminate.
-  - now apply negb_true_iff in H3.
   - now apply negb_true_iff in H4.
   - now apply keys_nodupb_ok.
   - now apply scopeb_ok.
